@@ -209,6 +209,9 @@ func (k *VerifKeys) Keys(ch, idem string) map[string]string {
 	return out
 }
 
+// DefaultPrefix is the effective key prefix after the constructors' defaulting.
+func (k *VerifKeys) DefaultPrefix() string { return k.broker.config.Prefix }
+
 // VerifRedisSlot is the package's own slot function (redis_cluster_slot.go).
 func VerifRedisSlot(key string) int { return int(redisSlot(key)) }
 
@@ -310,8 +313,9 @@ func (k *VerifKeys) capture(op string, clusterSlots bool, fn func()) VerifCaptur
 
 // CaptureOps runs the real per-channel operations of the three engines against the recording client
 // and returns the commands they built. With clusterSlots the builders behave like those of rueidis'
-// cluster client (cross-slot KEYS panic inside rueidis).
-func (k *VerifKeys) CaptureOps(ch, idem string, clusterSlots bool) []VerifCaptured {
+// cluster client (cross-slot KEYS panic inside rueidis). cleanupScanKey is the key the cleanup worker
+// scans for this channel's partition (see CleanupScanKeys).
+func (k *VerifKeys) CaptureOps(ch, idem, cleanupScanKey string, clusterSlots bool) []VerifCaptured {
 	ctx := context.Background()
 	sw := k.broker.shards[0]
 	var out []VerifCaptured
@@ -340,7 +344,9 @@ func (k *VerifKeys) CaptureOps(ch, idem string, clusterSlots bool) []VerifCaptur
 			if err != nil {
 				panic(err)
 			}
-			_ = e.batchRemoveExpired(ctx, k.shard, ch, e.cleanupRegistrationKeyForChannel(k.shard, ch), chOpts,
+			// cleanupPartition(cleanupKey) -> cleanupChannel(.., cleanupKey, ..) -> batchRemoveExpired(.., cleanupKey, ..):
+			// the key is the one the worker scanned (taken by the harness from the real cleanupShard pass)
+			_ = e.batchRemoveExpired(ctx, k.shard, ch, cleanupScanKey, chOpts,
 				[]cleanupRemovalEntry{{key: "key", payload: []byte("x"), expireScore: "1"}})
 		}))
 	}
